@@ -5,7 +5,8 @@
 //! Rust source files, compiled with rustc against the working tree of the crate, and run.
 //!
 //! Case lines: `m <document>` where a document is the token sequence
-//!   n | t | f | i<decimal> | d+<float literal> | d-<float literal> | $<hex cps>
+//!   n | t | f | i<decimal> | i<decimal>:<i8|i16|i32|i64|u8|u16|u32|u64> (suffixed literal)
+//!   | d+<float literal> | d-<float literal> | $<hex cps>
 //!   | [ doc* ] | [ doc* ]+            (`]+` = written with a trailing comma)
 //!   | { (key doc)* } | { (key doc)* }+
 //!   key = k<hex> (string literal) | p<hex> (parenthesised literal) | v<hex> (a `&str`
@@ -29,11 +30,47 @@ pub enum KForm {
     ParenVar,
 }
 
+/// The integer types T with `impl From<T> for Value` (the suffixes an integer literal may carry).
+#[derive(Clone, Copy, Debug, PartialEq)]
+pub enum ITy {
+    I8,
+    I16,
+    I32,
+    I64,
+    U8,
+    U16,
+    U32,
+    U64,
+}
+
+impl ITy {
+    pub const ALL: [ITy; 8] = [ITy::I8, ITy::I16, ITy::I32, ITy::I64, ITy::U8, ITy::U16, ITy::U32, ITy::U64];
+    pub fn name(self) -> &'static str {
+        ["i8", "i16", "i32", "i64", "u8", "u16", "u32", "u64"][self as usize]
+    }
+    pub fn min(self) -> i128 {
+        [i8::MIN as i128, i16::MIN as i128, i32::MIN as i128, i64::MIN as i128, 0, 0, 0, 0][self as usize]
+    }
+    pub fn max(self) -> i128 {
+        [i8::MAX as i128, i16::MAX as i128, i32::MAX as i128, i64::MAX as i128, u8::MAX as i128, u16::MAX as i128, u32::MAX as i128, u64::MAX as i128]
+            [self as usize]
+    }
+    pub fn parse(s: &str) -> Option<ITy> {
+        ITy::ALL.into_iter().find(|t| t.name() == s)
+    }
+}
+
+fn int_in_range(z: i128, ty: Option<ITy>) -> bool {
+    let t = ty.unwrap_or(ITy::I32);
+    t.min() <= z && z <= t.max()
+}
+
 #[derive(Clone, Debug, PartialEq)]
 pub enum Doc {
     Null,
     Bool(bool),
-    Int(i64),
+    /// value and optional type suffix; a negative value is written `-<magnitude><suffix>`
+    Int(i128, Option<ITy>),
     Float(bool, String),
     Str(String),
     Arr(Vec<Doc>, bool),
@@ -47,7 +84,8 @@ pub fn enc_doc(d: &Doc, out: &mut String) {
         Doc::Null => out.push('n'),
         Doc::Bool(true) => out.push('t'),
         Doc::Bool(false) => out.push('f'),
-        Doc::Int(z) => write!(out, "i{z}").unwrap(),
+        Doc::Int(z, None) => write!(out, "i{z}").unwrap(),
+        Doc::Int(z, Some(t)) => write!(out, "i{z}:{}", t.name()).unwrap(),
         Doc::Float(neg, s) => write!(out, "d{}{}", if *neg { '-' } else { '+' }, s).unwrap(),
         Doc::Str(s) => {
             out.push('$');
@@ -203,11 +241,15 @@ fn dec_doc<'a>(t: &'a [&'a str]) -> Option<(Doc, &'a [&'a str])> {
             }
         }
         x if x.starts_with('i') => {
-            let z: i64 = x[1..].parse().ok()?;
-            if z < i32::MIN as i64 || z > i32::MAX as i64 || x[1..] != z.to_string() {
+            let (num, ty) = match x[1..].split_once(':') {
+                Some((n, t)) => (n, Some(ITy::parse(t)?)),
+                None => (&x[1..], None),
+            };
+            let z: i128 = num.parse().ok()?;
+            if !int_in_range(z, ty) || num != z.to_string() {
                 return None;
             }
-            Some((Doc::Int(z), r))
+            Some((Doc::Int(z, ty), r))
         }
         x if x.starts_with("d+") || x.starts_with("d-") => {
             if !float_in_domain(&x[2..]) {
@@ -288,7 +330,7 @@ fn tokens_src(d: &Doc, style: &mut Rng, vars: &mut BTreeSet<String>, out: &mut S
     match d {
         Doc::Null => out.push_str("null"),
         Doc::Bool(b) => write!(out, "{b}").unwrap(),
-        Doc::Int(z) => write!(out, "{z}").unwrap(),
+        Doc::Int(z, ty) => write!(out, "{z}{}", ty.map(|t| t.name()).unwrap_or("")).unwrap(),
         Doc::Float(neg, s) => write!(out, "{}{}", if *neg { "-" } else { "" }, s).unwrap(),
         Doc::Str(s) => out.push_str(&rust_str_lit(s, style.next())),
         Doc::Arr(l, tc) => {
@@ -356,7 +398,7 @@ pub fn text(d: &Doc, out: &mut String) {
     match d {
         Doc::Null => out.push_str("null"),
         Doc::Bool(b) => write!(out, "{b}").unwrap(),
-        Doc::Int(z) => write!(out, "{z}").unwrap(),
+        Doc::Int(z, _) => write!(out, "{z}").unwrap(),
         Doc::Float(neg, s) => write!(out, "{}{}", if *neg { "-" } else { "" }, s).unwrap(),
         Doc::Str(s) => json_quote(s, out),
         Doc::Arr(l, _) => {
@@ -701,14 +743,70 @@ fn gen_string(r: &mut Rng) -> String {
         .collect()
 }
 
-fn gen_int(r: &mut Rng) -> i64 {
-    match r.below(8) {
+/// An unsuffixed (i32) integer.
+fn gen_i32(r: &mut Rng) -> i128 {
+    (match r.below(8) {
         0 => 0,
         1 => *r.pick(&[1, -1, 9, 10, -10, 99, 100, 255, -256]),
         2 => *r.pick(&[i32::MAX as i64, i32::MIN as i64, i32::MAX as i64 - 1, i32::MIN as i64 + 1]),
         3 => 10i64.pow(r.below(10) as u32) * if r.chance(1, 2) { -1 } else { 1 },
         _ => (r.next() as i32) as i64 >> r.below(31),
+    }) as i128
+}
+
+/// A value of the given type: its bounds and their neighbours, the powers of two where the
+/// narrower types end (2^7 .. 2^63 and their predecessors, negated for signed types), or random.
+fn gen_typed(r: &mut Rng, t: ITy) -> i128 {
+    let z: i128 = match r.below(6) {
+        0 => *r.pick(&[t.min(), t.max(), t.max() - 1, t.min() + 1, 0, 1]),
+        1 | 2 => {
+            let p = 1i128 << *r.pick(&[7u32, 8, 15, 16, 31, 32, 63]);
+            let v = p - r.below(2) as i128;
+            if t.min() < 0 && r.chance(1, 2) { -v } else { v }
+        }
+        3 => (r.next() as i128) >> r.below(64),
+        4 => -((r.next() >> 1) as i128) >> r.below(63),
+        _ => r.below(1000) as i128 - if t.min() < 0 { 500 } else { 0 },
+    };
+    z.clamp(t.min(), t.max())
+}
+
+/// Any integer literal of the domain: unsuffixed half of the time.
+fn gen_int(r: &mut Rng) -> Doc {
+    if r.chance(1, 2) {
+        Doc::Int(gen_i32(r), None)
+    } else {
+        let t = *r.pick(&ITy::ALL);
+        Doc::Int(gen_typed(r, t), Some(t))
     }
+}
+
+/// Suffixed literals at the bounds of every width; u64 values >= 2^63 and i64::MIN as scalar,
+/// array item and object value (part of every run).
+fn int_bounds() -> Vec<Doc> {
+    let mut out = vec![];
+    for t in ITy::ALL {
+        let mut vs = vec![t.min(), t.max(), 0, 1, t.max() - 1];
+        if t.min() < 0 {
+            vs.push(t.min() + 1);
+            vs.push(-1);
+        }
+        out.push(Doc::Arr(vs.into_iter().map(|z| Doc::Int(z, Some(t))).collect(), t as usize % 2 == 0));
+    }
+    let u = |z: u64| Doc::Int(z as i128, Some(ITy::U64));
+    let i = |z: i64| Doc::Int(z as i128, Some(ITy::I64));
+    out.push(u(u64::MAX));
+    out.push(i(i64::MIN));
+    out.push(Doc::Obj(
+        vec![
+            (KForm::Lit, "max".into(), u(u64::MAX)),
+            (KForm::Paren, "mid".into(), Doc::Arr(vec![u(1 << 63), u((1 << 63) - 1), i(i64::MIN), i(i64::MAX)], true)),
+            (KForm::Var, "max".into(), u((1 << 63) + 1)),
+            (KForm::Lit, "w".into(), Doc::Arr(vec![Doc::Int(1 << 32, Some(ITy::U64)), Doc::Int(-(1 << 32), Some(ITy::I64)), Doc::Int((1 << 32) - 1, Some(ITy::U32)), Doc::Int(1 << 31, Some(ITy::U32)), Doc::Int(-(1 << 31), Some(ITy::I32)), Doc::Int(1 << 16, Some(ITy::U32)), Doc::Int(1 << 15, Some(ITy::U16)), Doc::Int(1 << 7, Some(ITy::U8)), Doc::Int(-(1 << 7), Some(ITy::I8))], false)),
+        ],
+        true,
+    ));
+    out
 }
 
 /// Doubles the dependency (lexical-write-float 1.0.6) does not spell with the shortest /
@@ -754,7 +852,7 @@ fn gen_leaf(r: &mut Rng) -> Doc {
         0 => Doc::Null,
         1 => Doc::Bool(true),
         2 => Doc::Bool(false),
-        3 | 4 => Doc::Int(gen_int(r)),
+        3 | 4 => gen_int(r),
         5 | 6 => Doc::Float(r.chance(1, 3), gen_float(r)),
         _ => Doc::Str(gen_string(r)),
     }
@@ -799,15 +897,15 @@ fn kinds(r: &mut Rng) -> Vec<Doc> {
         Doc::Null,
         Doc::Bool(true),
         Doc::Bool(false),
-        Doc::Int(gen_int(r).abs().min(i32::MAX as i64)),
-        Doc::Int(-1 - gen_int(r).abs().min(i32::MAX as i64)),
+        if r.chance(1, 2) { Doc::Int(gen_i32(r).abs().min(i32::MAX as i128), None) } else { Doc::Int(gen_typed(r, ITy::U64).max(1 << 63), Some(ITy::U64)) },
+        if r.chance(1, 2) { Doc::Int(-1 - gen_i32(r).abs().min(i32::MAX as i128), None) } else { let t = *r.pick(&[ITy::I8, ITy::I16, ITy::I32, ITy::I64]); Doc::Int((-1 - gen_typed(r, t).abs()).max(t.min()), Some(t)) },
         Doc::Float(false, gen_float(r)),
         Doc::Float(true, gen_float(r)),
         Doc::Str(gen_string(r)),
         Doc::Arr(vec![], false),
-        Doc::Arr(vec![Doc::Int(1), Doc::Arr(vec![Doc::Null], true)], r.chance(1, 2)),
+        Doc::Arr(vec![Doc::Int(1, None), Doc::Arr(vec![Doc::Null], true)], r.chance(1, 2)),
         Doc::Obj(vec![], false),
-        Doc::Obj(vec![(KForm::Lit, "k".into(), Doc::Int(-2)), (KForm::Paren, "k".into(), Doc::Arr(vec![], false))], r.chance(1, 2)),
+        Doc::Obj(vec![(KForm::Lit, "k".into(), Doc::Int(-2, None)), (KForm::Paren, "k".into(), Doc::Arr(vec![], false))], r.chance(1, 2)),
     ]
 }
 
@@ -822,10 +920,11 @@ fn systematic(r: &mut Rng, full: bool) -> Vec<Doc> {
     for s in NOT_SHORTEST {
         out.push(Doc::Arr(vec![Doc::Float(false, s.to_string())], false));
     }
+    out.extend(int_bounds());
     let mut n = 0usize;
     for tc in [false, true] {
         for (i, k) in kinds(r).into_iter().enumerate() {
-            let filler = Doc::Int(7);
+            let filler = Doc::Int(7, None);
             // arrays: alone, last after a filler, first before a filler
             out.push(Doc::Arr(vec![k.clone()], tc));
             out.push(Doc::Arr(vec![filler.clone(), k.clone()], tc));
